@@ -64,6 +64,8 @@ class Recorded:
         self.method = request.method
         self.url = str(request.url)
         self.headers = {k.lower(): v for k, v in request.headers.items()}
+        # every header line as it goes on the wire (lower-cased name, value), duplicates kept
+        self.raw_headers = [(k.decode("latin-1").lower(), v.decode("latin-1")) for k, v in request.headers.raw]
         self.body = body
         self.t = t
         self.timeout = dict(request.extensions.get("timeout") or {})
